@@ -4,7 +4,7 @@ PROPS = {}
 
 PROPS['C07'] = dict(
   level='proof',
-  verus=[dict(unit='chanq', min_functions=10), dict(unit='ops', min_functions=2), dict(unit='splitcopy', min_functions=1), dict(unit='launchc', min_functions=1)],
+  verus=[dict(unit='chanq', min_functions=10), dict(unit='ops', min_functions=2), dict(unit='splitcopy', min_functions=1), dict(unit='launchc', min_functions=1), dict(unit='parserret', min_functions=1)],
   kani=[],
   not_decided=['resumption of a blocked synchronous sender is the scheduler\'s (C08), not decided here'],
 )
@@ -50,14 +50,14 @@ PROPS['C18'] = dict(
 )
 PROPS['C04'] = dict(
   level='proof',
-  verus=[dict(unit='peephole', min_functions=2), dict(unit='bytecode', min_functions=1), dict(unit='ops', min_functions=6), dict(unit='unwind', min_functions=6), dict(unit='hooks', min_functions=2), dict(unit='compilerd', min_functions=6), dict(unit='catchd', min_functions=1), _findings_variant(['spec:handler_depth_is_live_depth']), dict(unit='parsertry', min_functions=1)],
+  verus=[dict(unit='peephole', min_functions=2), dict(unit='bytecode', min_functions=1), dict(unit='ops', min_functions=6), dict(unit='unwind', min_functions=6), dict(unit='hooks', min_functions=2), dict(unit='compilerd', min_functions=6), dict(unit='catchd', min_functions=1), _findings_variant(['spec:handler_depth_is_live_depth']), dict(unit='parsertry', min_functions=1), dict(unit='parserret', min_functions=1)],
   not_decided=['PopHandler emission: return / break / continue / try itself ARE decided (compilerd unit); that statements are compiled at the try depth of their enclosing try blocks is the composition of those contracts over the AST (each step checked, the induction not)', 'A-hist: the pointers already collected for an error do not reach below the frame now searched (pause_unwind precondition)',
                'the raw-pointer stores of stack_unwind (ip, stack top, current frame) are one stub (vx/units/unwind/prelude.rs); Vm::stack_unwind / execute loop around it'],
 )
 
 PROPS['C01'] = dict(
   level='proof',
-  verus=[dict(unit='ops', min_functions=20), dict(unit='native', min_functions=3), dict(unit='retops', min_functions=1), dict(unit='mapops', min_functions=1), dict(unit='iterops', min_functions=2), dict(unit='launchops', min_functions=1), dict(unit='funcc', min_functions=1), dict(unit='compilerd', min_functions=2), dict(unit='forc', min_functions=1), dict(unit='prattops', min_functions=8), dict(unit='prattloop', min_functions=1), dict(unit='calls', min_functions=4), dict(unit='scopec', min_functions=8), dict(unit='parserblk', min_functions=2), dict(unit='parserd', min_functions=6), dict(unit='limitsc', min_functions=2), dict(unit='parserret', min_functions=3), dict(unit='parserasg', min_functions=4), dict(unit='parserloop', min_functions=2), dict(unit='parserstmt', min_functions=1), dict(unit='parsertry', min_functions=1), dict(unit='launchc', min_functions=1)],
+  verus=[dict(unit='ops', min_functions=20), dict(unit='native', min_functions=3), dict(unit='retops', min_functions=1), dict(unit='mapops', min_functions=1), dict(unit='iterops', min_functions=2), dict(unit='launchops', min_functions=1), dict(unit='funcc', min_functions=1), dict(unit='compilerd', min_functions=2), dict(unit='forc', min_functions=1), dict(unit='prattops', min_functions=8), dict(unit='prattloop', min_functions=1), dict(unit='calls', min_functions=4), dict(unit='scopec', min_functions=8), dict(unit='parserblk', min_functions=2), dict(unit='parserd', min_functions=6), dict(unit='limitsc', min_functions=2), dict(unit='parserret', min_functions=5), dict(unit='parserasg', min_functions=4), dict(unit='parserloop', min_functions=2), dict(unit='parserstmt', min_functions=1), dict(unit='parsertry', min_functions=1), dict(unit='launchc', min_functions=1)],
   kani=[dict(crate='front', harnesses=['proofs::o01_p_infix_table', 'proofs::o01_p_infix_action', 'proofs::o01_p_prefix_action', 'proofs::o01_p_higher', 'proofs::o01_p_prefix_table'], kind='complete', assumption_ids=['A-kani']),
         dict(crate='value', harnesses=['proofs::o14_6_falsey', 'proofs::o14_3_num_eq_ieee'], features='', kind='complete', assumption_ids=['A-kani']),
         dict(crate='value', harnesses=['proofs::o14_6_falsey', 'proofs::o14_3_num_eq_ieee'], features='nan_boxing', kind='complete', assumption_ids=['A-kani'])],
